@@ -65,10 +65,12 @@ SCHEME_KINDS = {
     'one_b': [spaces.B3LTB4],
     'ext': [spaces.UNIFYING, spaces.PSEUDO],
     'six_t7': [spaces.UNIFYING, spaces.INDUCED_05, spaces.PSEUDO, spaces.B3LTB4, spaces.POSITIONAL, spaces.B5LTT5,
-               spaces.UNIFYING_TINY, spaces.INDUCED05_TINY, spaces.B1EQ3T0],
+               spaces.UNIFYING_TINY, spaces.INDUCED05_TINY, spaces.B1EQ3T0, spaces.HUGE_TINY],
     'six_t': [spaces.UNIFYING, spaces.INDUCED_05, spaces.PSEUDO, spaces.B3LTB4, spaces.POSITIONAL, spaces.B5LTT5,
-              spaces.UNIFYING_TINY, spaces.INDUCED05_TINY, spaces.B5T5HUGE],
+              spaces.UNIFYING_TINY, spaces.INDUCED05_TINY, spaces.B5T5HUGE, spaces.HUGE_TINY],
     'three_t': [spaces.UNIFYING, spaces.PSEUDO, spaces.B5LTT5, spaces.UNIFYING_TINY, spaces.INDUCED05_TINY],
+    'one_t': [spaces.UNIFYING_TINY],
+    'two_h': [spaces.UNIFYING, spaces.B5T5HUGE],
     'two_t': [spaces.UNIFYING, spaces.B3LTB4, spaces.UNIFYING_TINY],
     'rest11': [x for _, x in spaces.SCHQ if x not in (spaces.UNIFYING, spaces.INDUCED_05, spaces.PSEUDO, spaces.B3LTB4,
                                                       spaces.POSITIONAL, spaces.B5LTT5)],
